@@ -12,7 +12,7 @@ use std::collections::BTreeMap;
 use std::marker::PhantomData;
 use std::net::SocketAddr;
 
-use timestamped_socket::socket::{GeneralTimestampMode, InterfaceTimestampMode, TimestampData};
+use timestamped_socket::socket::{GeneralTimestampMode, InterfaceTimestampMode, Timestamp, TimestampData};
 pub use timestamped_socket::socket::RecvResult;
 
 pub use super::super::ntp_source::{MsgForSystem, SourceChannels};
@@ -30,6 +30,20 @@ pub struct Outbound {
     pub at: tokio::time::Instant,
     /// position in the hub's order of sends and datagram consumptions
     pub seq: u64,
+    /// the "kernel" send timestamp (unix seconds, nanoseconds) handed back to the task, if any
+    pub kernel_ts: Option<(i64, u32)>,
+}
+
+/// Which socket timestamps the simulated kernel provides (what `timestamp-mode` selects in the daemon).
+#[derive(Debug, Clone, Copy, PartialEq, Eq, Default)]
+pub enum KernelTimestamps {
+    /// none: the task falls back to reading its clock ("software" mode)
+    #[default]
+    None,
+    /// receive timestamps only ("kernel-recv")
+    Recv,
+    /// send and receive timestamps ("kernel-all")
+    All,
 }
 
 #[derive(Default)]
@@ -43,6 +57,10 @@ struct Hub {
     /// counts sends and consumptions, in the order the tasks performed them
     seq: u64,
     last_consumed_seq: u64,
+    kernel: KernelTimestamps,
+    /// the node's clock as the kernel would stamp a packet: (unix seconds, nanoseconds)
+    kernel_clock: Option<Box<dyn Fn() -> (i64, u32)>>,
+    last_consumed_ts: Option<(i64, u32)>,
     /// connect_address fails while this is set (simulated "network unreachable at socket setup")
     refuse_connect: bool,
 }
@@ -91,6 +109,29 @@ pub fn hub_deliver(socket: u64, bytes: Vec<u8>) -> bool {
 /// `Outbound::seq` to order a task's sends relative to it.
 pub fn hub_last_consumed_seq() -> u64 {
     HUB.with(|h| h.borrow().last_consumed_seq)
+}
+
+/// Install the simulated kernel's packet timestamping: `clock` returns the node's clock as
+/// (unix seconds, nanoseconds); the task then converts it with the REAL `convert_net_timestamp`.
+pub fn hub_set_kernel_timestamps(mode: KernelTimestamps, clock: Box<dyn Fn() -> (i64, u32)>) {
+    HUB.with(|h| {
+        let mut h = h.borrow_mut();
+        h.kernel = mode;
+        h.kernel_clock = Some(clock);
+    });
+}
+
+/// The kernel receive timestamp handed to the task with the most recently consumed datagram.
+pub fn hub_last_consumed_ts() -> Option<(i64, u32)> {
+    HUB.with(|h| h.borrow().last_consumed_ts)
+}
+
+fn stamp(mode: InterfaceTimestampMode, ts: Option<(i64, u32)>) -> TimestampData {
+    TimestampData {
+        timestamp_mode: if ts.is_some() { mode } else { InterfaceTimestampMode::None },
+        hardware: None,
+        software: ts.map(|(seconds, nanos)| Timestamp { seconds, nanos }),
+    }
 }
 
 /// Number of sends and consumptions performed by the tasks so far.
@@ -166,13 +207,19 @@ impl Socket<SocketAddr, Connected> {
     pub async fn recv(&mut self, buf: &mut [u8]) -> std::io::Result<RecvResult<SocketAddr>> {
         match self.rx.recv().await {
             Some(bytes) => {
-                HUB.with(|h| {
+                let ts = HUB.with(|h| {
                     let mut h = h.borrow_mut();
                     h.seq += 1;
                     h.last_consumed_seq = h.seq;
+                    let ts = match (h.kernel, &h.kernel_clock) {
+                        (KernelTimestamps::Recv | KernelTimestamps::All, Some(clock)) => Some(clock()),
+                        _ => None,
+                    };
+                    h.last_consumed_ts = ts;
                     if let Some(n) = &h.consumed {
                         n.notify_one();
                     }
+                    ts
                 });
                 // like a real datagram socket: the datagram is truncated to the buffer
                 let n = bytes.len().min(buf.len());
@@ -182,12 +229,8 @@ impl Socket<SocketAddr, Connected> {
                     bytes_read: n,
                     remote_addr: peer,
                     local_addr: peer,
-                    // no kernel timestamp: the task substitutes clock.now(), which the simulator owns
-                    timestamp_data: TimestampData {
-                        timestamp_mode: InterfaceTimestampMode::None,
-                        hardware: None,
-                        software: None,
-                    },
+                    // without a kernel timestamp the task substitutes clock.now(), which the simulator owns
+                    timestamp_data: stamp(InterfaceTimestampMode::SoftwareRecv, ts),
                 })
             }
             None => std::future::pending().await,
@@ -195,26 +238,28 @@ impl Socket<SocketAddr, Connected> {
     }
 
     pub async fn send(&mut self, buf: &[u8]) -> std::io::Result<TimestampData> {
-        HUB.with(|h| {
+        let ts = HUB.with(|h| {
             let mut h = h.borrow_mut();
             h.seq += 1;
             let seq = h.seq;
+            let kernel_ts = match (h.kernel, &h.kernel_clock) {
+                (KernelTimestamps::All, Some(clock)) => Some(clock()),
+                _ => None,
+            };
             h.outbox.push(Outbound {
                 socket: self.id,
                 peer: self.peer.expect("connected socket has a peer"),
                 bytes: buf.to_vec(),
                 at: tokio::time::Instant::now(),
                 seq,
+                kernel_ts,
             });
             if let Some(n) = &h.notify {
                 n.notify_one();
             }
+            kernel_ts
         });
-        Ok(TimestampData {
-            timestamp_mode: InterfaceTimestampMode::None,
-            hardware: None,
-            software: None,
-        })
+        Ok(stamp(InterfaceTimestampMode::SoftwareAll, ts))
     }
 }
 
